@@ -368,6 +368,30 @@ func genTokens(repo string) (string, error) {
 		sb.WriteString("])")
 	}
 	sb.WriteString("\n].\n")
+	// integer literals of Token.String (the length at which a literal is cut, and the cut), in source order
+	{
+		_, tf, err := gen.ParseFile(filepath.Join(dir, "token.go"))
+		if err != nil {
+			return "", err
+		}
+		var ints []string
+		for _, d := range tf.Decls {
+			fd, ok := d.(*ast.FuncDecl)
+			if !ok || fd.Body == nil || fd.Name.Name != "String" || fd.Recv == nil || len(fd.Recv.List) != 1 {
+				continue
+			}
+			if id, ok := fd.Recv.List[0].Type.(*ast.Ident); !ok || id.Name != "Token" {
+				continue
+			}
+			ast.Inspect(fd.Body, func(n ast.Node) bool {
+				if bl, ok := n.(*ast.BasicLit); ok && bl.Kind == token.INT {
+					ints = append(ints, bl.Value)
+				}
+				return true
+			})
+		}
+		fmt.Fprintf(&sb, "(* token.go Token.String: integer literals in source order (cut threshold, kept bytes) *)\nDefinition token_string_ints : list N := [%s].\n", strings.Join(ints, "; "))
+	}
 	// the expected token types of every unexpectedToken(...) / popType(...) call, per function, in source order
 	sb.WriteString("(* expected token types of the unexpectedToken / popType calls per function, in source order *)\n")
 	sb.WriteString("Definition walker_expected : list (string * list (list N)) := [\n")
